@@ -79,7 +79,7 @@ def run(chk, orch):
                        "control run = fault-free run of the same workload under the same cell (attribution rule, DESIGN 2.6)"]
     plan = []
     wls = [
-        ({"seed": 21, "n_chr": 3, "genes_per_chr": 2, "reads_per_iso": 3, "paralogs": 1, "novel": 1, "groups": 0},
+        ({"seed": 21, "n_chr": 2, "genes_per_chr": 2, "reads_per_iso": 3, "paralogs": 1, "novel": 1, "groups": 0, "long_locus": 1},
          {}, dict(common.GOLDEN_CELL, threads=1, bufsize=8192)),
         ({"seed": 22, "n_chr": 3, "genes_per_chr": 2, "reads_per_iso": 3, "paralogs": 1, "novel": 1, "groups": 2},
          {"read_group": "file"}, dict(common.GOLDEN_CELL, threads=3, sched={"policy": "random", "seed": 3}, bufsize=256)),
@@ -215,6 +215,13 @@ def run(chk, orch):
                     a["phase"] = "crash"
                     orch.submit(cell["hashseed"], "scenarios:crash_resume", a, tag=("x1", wi, seq, "after+hashseed"))
                     points[(wi, seq, "after+hashseed")] = (label, st[seq], a)
+                    if label.endswith("_processed"):
+                        # right after a chromosome was marked as processed: part of the chromosomes is done by the killed process,
+                        # the rest by the resuming one - tried under a second foreign hash seed as well (two names may iterate in
+                        # the same order under two particular seeds)
+                        a_ = dict(a)
+                        orch.submit(cell["hashseed"], "scenarios:crash_resume", a_, tag=("x1", wi, seq, "after+hashseed2"))
+                        points[(wi, seq, "after+hashseed2")] = (label, st[seq], a_)
         collected = list(orch.results())
         second = []
         for jid, tag, r in collected:
@@ -228,7 +235,7 @@ def run(chk, orch):
                 elif not r.get("ok"):
                     chk.harness_error("%s %s %s: %s" % (stage, label, phase, r.get("err")))
                 continue
-            other = (wls[wi][2]["hashseed"] + 5) % 8
+            other = (wls[wi][2]["hashseed"] + (5 if phase == "after+hashseed" else 1)) % 8
             a2 = dict(a, phase="resume", rundir=r["res"]["rundir"])
             points[(wi, seq, phase)] = (label, stage, dict(a2, resume_hashseed=other))
             orch.submit(other, "scenarios:crash_resume", a2, tag=("x", wi, seq, phase))
@@ -256,7 +263,7 @@ def run(chk, orch):
             chk.faults[("kill-tree/" + phase) if phase != "sigint" else "sigint(KeyboardInterrupt raised at the event, stack unwinds)"] += 1
             if phase == "sigint" and ":worker:" in ":" + label:
                 chk.probes["sigint_while_waiting_for_the_pool"] += 1
-            if phase == "after+hashseed":
+            if phase.startswith("after+hashseed"):
                 chk.faults["resume_under_another_hash_seed"] += 1
             chk.distinct.add(json.dumps([wi, rounds, stage, label, phase]))
             chk.probes["crash_in_stage_" + stage] += 1
